@@ -94,6 +94,8 @@ type gl struct { // generator-side listener
 // Close/Listen is issued while a handler goroutine is parked in its send (the deterministic prefix).
 func genSched(g *hx.Gen, wantHang bool) (cls string, addrs []addr, toks []string) {
 	r := g.R
+	feat := map[string]bool{}
+	st := func(name string) { g.Stat(name); feat[name] = true }
 	// address table: a few base addresses and near misses (same host other port, other case, unix/tcp twins)
 	nBase := r.Range(1, 3)
 	for i := 0; i < nBase; i++ {
@@ -190,7 +192,7 @@ func genSched(g *hx.Gen, wantHang bool) (cls string, addrs []addr, toks []string
 		blockedNet, blockedOn = netOf(k), e
 		return false
 	}
-	nSteps := r.Range(3, 14)
+	nSteps := r.Range(4, 18)
 	hangAt := -1
 	if wantHang {
 		hangAt = r.Range(3, 9)
@@ -255,9 +257,9 @@ func genSched(g *hx.Gen, wantHang bool) (cls string, addrs []addr, toks []string
 		if blockedOn != nil && wantHang && step >= hangAt {
 			// the witness schedule of close_can_deadlock: Close (or Listen) while a handler holds the mutex
 			k := r.Intn(len(addrs))
-			if r.Chance(1, 5) && !dead && lookup(k) == nil {
+			if r.Chance(1, 3) && !dead && lookup(k) == nil {
 				emit(fmt.Sprintf("l%d", k))
-				g.Stat("hang.listen-while-locked")
+				st("hang.listen-while-locked")
 			} else {
 				l := hx.Pick(r, ls)
 				if r.Chance(2, 3) {
@@ -265,7 +267,7 @@ func genSched(g *hx.Gen, wantHang bool) (cls string, addrs []addr, toks []string
 				}
 				l.closeCalled = true
 				emit(fmt.Sprintf("c%d", l.step))
-				g.Stat("hang.close-while-locked")
+				st("hang.close-while-locked")
 			}
 			hang = true
 			continue
@@ -274,7 +276,7 @@ func genSched(g *hx.Gen, wantHang bool) (cls string, addrs []addr, toks []string
 		switch {
 		case dead && choice < 8: // Listen on a dead connection: error, no listener
 			emit(fmt.Sprintf("l%d", r.Intn(len(addrs))))
-			g.Stat("listen.after-disconnect")
+			st("listen.after-disconnect")
 		case len(ls) == 0 && choice < 70 && !dead, choice < 14 && blockedOn == nil && len(ls) < 4 && !dead: // listen
 			k := r.Intn(len(addrs))
 			if e := lookup(k); e != nil && !allowDup {
@@ -296,7 +298,7 @@ func genSched(g *hx.Gen, wantHang bool) (cls string, addrs []addr, toks []string
 			started = true
 			if deny {
 				emit(fmt.Sprintf("%s%d!", tok, k))
-				g.Stat("listen.denied")
+				st("listen.denied")
 				continue
 			}
 			if lookup(k) != nil {
@@ -306,7 +308,20 @@ func genSched(g *hx.Gen, wantHang bool) (cls string, addrs []addr, toks []string
 			ls = append(ls, l)
 			entries = append(entries, l)
 			emit(fmt.Sprintf("%s%d", tok, k))
-			g.Stat("listen")
+			st("listen")
+			if a.unix {
+				st("listen.unix")
+			}
+			if !a.unix && a.port == 0 {
+				st("listen.port0")
+			}
+			if tok != "l" {
+				st("listen.api-" + tok)
+			}
+			listenNets[map[string]string{"l": "tcp", "lt": "tcp", "lf": "tcp4", "ls": "tcp6", "lu": "unix"}[tok]] = true
+			if a.unix {
+				listenNets["unix"] = true
+			}
 		case choice < 55 && !dead: // forward
 			k := r.Intn(len(addrs))
 			if wantHang && len(entries) > 0 && r.Chance(4, 5) {
@@ -338,22 +353,30 @@ func genSched(g *hx.Gen, wantHang bool) (cls string, addrs []addr, toks []string
 					queue[len(queue)-1] = -1
 				}
 				emit(fmt.Sprintf("f%s%d", variant, k))
-				g.Stat("fwd.queued-behind-parked-handler")
+				st("fwd.queued-behind-parked-handler")
 				continue
 			}
 			emit(fmt.Sprintf("f%s%d", variant, k))
+			switch {
+			case variant == "x" || !started:
+				fwdReasons[3] = true // UnknownChannelType: no handler for the type (yet)
+			case variant != "":
+				fwdReasons[2] = true // ConnectionFailed: payload / originator does not parse
+			case lookup(k) == nil:
+				fwdReasons[1] = true // Prohibited: no listener for exactly this address
+			}
 			if variant != "" || !started {
-				g.Stat("fwd.malformed-or-unhandled")
+				st("fwd.malformed-or-unhandled")
 				continue
 			}
 			if lookup(k) == nil {
-				g.Stat("fwd.unmatched")
+				st("fwd.unmatched")
 			} else {
-				g.Stat("fwd.matched")
+				st("fwd.matched")
 			}
 			curFid = step
 			if !deliver(k) {
-				g.Stat("fwd.parks-handler")
+				st("fwd.parks-handler")
 			}
 			curFid = -1
 		case choice < 78 && len(ls) > 0: // accept
@@ -373,7 +396,7 @@ func genSched(g *hx.Gen, wantHang bool) (cls string, addrs []addr, toks []string
 				l.bufFid = -1
 				if l.closeCalled {
 					late = true
-					g.Stat("accept.after-close-gets-buffered")
+					st("accept.after-close-gets-buffered")
 				}
 				emit(fmt.Sprintf("a%d", l.step))
 				if blockedOn == l {
@@ -391,11 +414,11 @@ func genSched(g *hx.Gen, wantHang bool) (cls string, addrs []addr, toks []string
 							break
 						}
 					}
-					g.Stat("accept.releases-parked-handler")
+					st("accept.releases-parked-handler")
 				}
 			case l.closed:
 				emit(fmt.Sprintf("a%d", l.step))
-				g.Stat("accept.eof")
+				st("accept.eof")
 			default:
 				if waitSteps >= 2 || dead {
 					continue
@@ -403,18 +426,18 @@ func genSched(g *hx.Gen, wantHang bool) (cls string, addrs []addr, toks []string
 				l.waiters++
 				waitSteps++
 				emit(fmt.Sprintf("a%d", l.step))
-				g.Stat("accept.waits")
+				st("accept.waits")
 			}
 		case choice >= 78 && choice < 83: // Dial family (independent of the forward list)
 			k := r.Intn(len(addrs))
 			a := addrs[k]
 			tok := "d"
-			switch r.Intn(6) {
+			switch r.Intn(8) {
 			case 0:
 				tok = "dx"
 			case 1:
 				tok = "dc"
-			case 2:
+			case 2, 3, 4:
 				if !a.unix && canonicalIP(a.host) && a.effPort() <= 65535 {
 					tok = "dt"
 				}
@@ -424,13 +447,20 @@ func genSched(g *hx.Gen, wantHang bool) (cls string, addrs []addr, toks []string
 				tok += "!"
 			}
 			emit(tok)
-			g.Stat("dial." + strings.TrimRight(strings.TrimRight(tok, "!"), "0123456789"))
+			st("dial." + strings.TrimRight(strings.TrimRight(tok, "!"), "0123456789"))
+			if strings.HasSuffix(tok, "!") {
+				st("dial.rejected")
+			}
+			if a.unix {
+				st("dial.unix")
+			}
 		case choice == 83: // Listen with an unsupported network: error, no request, handlers not started
+			listenNets["other"] = true
 			emit(fmt.Sprintf("lx%d", r.Intn(len(addrs))))
-			g.Stat("listen.unsupported-network")
+			st("listen.unsupported-network")
 		case choice >= 84 && choice < 87 && len(accepted) > 0 && !dead && blockedOn == nil: // request on an accepted forward
 			emit(fmt.Sprintf("q%d", hx.Pick(r, accepted)))
-			g.Stat("request-on-accepted-forward")
+			st("request-on-accepted-forward")
 		case choice < 96 && choice >= 87 && len(ls) > 0: // close (never while a handler is parked, in this region)
 			if blockedOn != nil {
 				continue
@@ -452,9 +482,10 @@ func genSched(g *hx.Gen, wantHang bool) (cls string, addrs []addr, toks []string
 			tok := fmt.Sprintf("c%d", l.step)
 			if r.Chance(1, 8) {
 				tok += "!"
+				st("close.cancel-refused")
 			}
 			emit(tok)
-			g.Stat("close")
+			st("close")
 		case choice >= 96 && !dead && blockedOn == nil && len(toks) > 2: // peer drops the connection
 			dead = true
 			for _, e := range entries {
@@ -462,7 +493,7 @@ func genSched(g *hx.Gen, wantHang bool) (cls string, addrs []addr, toks []string
 			}
 			entries = nil
 			emit("x")
-			g.Stat("disconnect")
+			st("disconnect")
 		}
 	}
 	if hang {
@@ -477,11 +508,60 @@ func genSched(g *hx.Gen, wantHang bool) (cls string, addrs []addr, toks []string
 	if cls == "" {
 		cls = "ok"
 	}
+	notePairs(feat)
 	return
 }
 
+// ---- coverage bookkeeping: feature pairs per schedule, arms of the network / channel-type switches
+var c37Features = []string{"listen", "listen.unix", "listen.port0", "listen.api-lt", "listen.api-lu", "listen.api-lf", "listen.api-ls",
+	"listen.denied", "listen.after-disconnect", "listen.unsupported-network", "fwd.matched", "fwd.unmatched", "fwd.malformed-or-unhandled",
+	"fwd.parks-handler", "fwd.queued-behind-parked-handler", "accept.waits", "accept.eof", "accept.after-close-gets-buffered",
+	"accept.releases-parked-handler", "close", "close.cancel-refused", "disconnect", "hang.close-while-locked", "hang.listen-while-locked",
+	"dial.d", "dial.dc", "dial.dt", "dial.dx", "dial.rejected", "dial.unix", "request-on-accepted-forward"}
+var pairCount = map[string]int{}
+var listenNets = map[string]bool{}
+var fwdReasons = map[int]bool{}
+
+func notePairs(feat map[string]bool) {
+	for i, a := range c37Features {
+		if !feat[a] {
+			continue
+		}
+		for _, b := range c37Features[i+1:] {
+			if feat[b] {
+				pairCount[a+"+"+b]++
+			}
+		}
+	}
+}
+
+func emitCoverage(g *hx.Gen) {
+	for i, a := range c37Features {
+		for _, b := range c37Features[i+1:] {
+			hangA, hangB := strings.HasPrefix(a, "hang."), strings.HasPrefix(b, "hang.")
+			dead := func(x string) bool { return x == "disconnect" || x == "listen.after-disconnect" }
+			parked := func(x string) bool { return strings.HasPrefix(x, "hang.") || x == "fwd.queued-behind-parked-handler" }
+			if hangA && hangB {
+				continue // the schedule is cut over to the free-running region at the first stuck call
+			}
+			if (dead(a) && parked(b)) || (dead(b) && parked(a)) {
+				continue // (in the tracked prefix) a handler can only park while the connection is up, and the peer only hangs up while none is parked
+			}
+			g.StatN("pair."+a+"+"+b, pairCount[a+"+"+b])
+		}
+	}
+	n := 0
+	for _, x := range []string{"tcp", "tcp4", "tcp6", "unix", "other"} {
+		if listenNets[x] {
+			n++
+		}
+	}
+	g.Stat(fmt.Sprintf("table.listen-network=%d/5", n))
+	g.Stat(fmt.Sprintf("table.forward-reject-reason=%d/3", len(fwdReasons)))
+}
+
 func gen(g *hx.Gen) {
-	n := g.Count(200, 10000)
+	n := g.Count(300, 10000)
 	for i := 0; i < n; i++ {
 		wantHang := i%5 == 0
 		cls, addrs, toks := genSched(g, wantHang)
@@ -492,6 +572,7 @@ func gen(g *hx.Gen) {
 		g.Stat("cls." + cls)
 		g.Emit("fwd cls=%s addrs=%s sched=%s", cls, strings.Join(as, ","), strings.Join(toks, ","))
 	}
+	emitCoverage(g)
 }
 
 // ---------------------------------------------------------------- exec: the real client
@@ -517,6 +598,7 @@ type sim struct {
 	refused        map[string]bool   // requests the scripted peer answered with REQUEST_FAILURE
 	clientChan     map[uint32]uint32 // forward id -> the client's channel id (from its confirmation)
 	curStep        int               // step whose synchronous call (Dial, channel request) is running
+	startedFwd     bool              // a Listen call with a supported network was made (handleForwards has run)
 	dialDeny       bool
 }
 
@@ -806,6 +888,9 @@ func exec(line string) string {
 			s.policy[name+"|"+string(payload)] = reqPolicy{deny: bang, port: uint32(a.assigned)}
 			s.refused[name+"|"+string(payload)] = false
 			s.listeners[step] = nil
+			if api != "lx" {
+				s.startedFwd = true
+			}
 			s.mu.Unlock()
 			s.call(-1, func() string {
 				var l net.Listener
@@ -1015,6 +1100,16 @@ func exec(line string) string {
 			segs = append(segs, strings.Join(evs, ","))
 		}
 	}
+	// HandleChannelOpen: once Listen has installed the forward handlers the two types are taken (nil); after the
+	// connection ended a closed channel is returned
+	s.mu.Lock()
+	dead, started := s.dead, s.startedFwd
+	s.mu.Unlock()
+	if started && !dead && len(segs) > 0 {
+		if s.c.HandleChannelOpen("forwarded-tcpip") != nil || s.c.HandleChannelOpen("forwarded-streamlocal@openssh.com") != nil {
+			segs[len(segs)-1] += ",handle-channel-open-bad"
+		}
+	}
 	return strings.Join(segs, "|")
 }
 
@@ -1033,6 +1128,10 @@ func addrOK(got net.Addr, a addr) bool {
 }
 
 func connAddrOK(cn net.Conn, l net.Listener, fid int) bool {
+	// deadlines are not supported by channel-backed connections: all three setters must refuse
+	if cn.SetDeadline(time.Time{}) == nil || cn.SetReadDeadline(time.Time{}) == nil || cn.SetWriteDeadline(time.Time{}) == nil {
+		return false
+	}
 	if cn.LocalAddr().String() != l.Addr().String() || cn.LocalAddr().Network() != l.Addr().Network() {
 		return false
 	}
